@@ -8,12 +8,12 @@
    C12_monotone: on timing data of the domain whose event beats lie on the tick grid the answer never decreases as time
    increases, for every tag and all pairs of times (across states, pauses and warps).
    C12_warp_tag_start / C12_warp_default_furthest: both halves of the warp clause for every coalesced segment.
-   Left to the correspondence on the dyadic family (exact floats), with the oracle stating them directly:
-   the widening of the own-time bound when the answer lands on an event beat
+   C12_own_time_any: the own-time bound also when the answer lands on an event beat (widened by the pauses on that beat).
+   Left to the correspondence on the dyadic family (exact floats): the binary64 arithmetic of the engine
    (C12_warp_elapse is the warp clause for the other segments, those starting on beat 0 included; C12_half_tick the
    bound in beats). *)
 From Coq Require Import List ZArith QArith Qabs Bool Sorting.Sorted.
-From SV Require Import Sx Beat Engine Proofs.EngineFacts Proofs.Hittable Proofs.TimeLaw Proofs.BeatAt Proofs.WarpElapse Proofs.RoundTripEvent Proofs.BeatMono Proofs.OwnTime Proofs.InPause Proofs.WarpStart.
+From SV Require Import Sx Beat Engine Proofs.EngineFacts Proofs.Hittable Proofs.TimeLaw Proofs.BeatAt Proofs.WarpElapse Proofs.RoundTripEvent Proofs.BeatMono Proofs.OwnTime Proofs.OwnTimeAll Proofs.InPause Proofs.WarpStart.
 Import ListNotations.
 Open Scope Q_scope.
 
@@ -128,7 +128,7 @@ Print Assumptions C12_monotone.
 (* "its own time lies within half a tick's duration of the asked time": the answer converted back with time_at (under any
    tag) is within (1/96 beat) x (seconds per beat in force) of the asked time, whenever the selected state is neither a
    pause nor inside a warp and the answer falls strictly between the events before and after it (on an event beat the
-   difference is widened by the pauses on that beat - left to the correspondence's oracle) *)
+   difference is widened by the pauses on that beat: C12_own_time_any below) *)
 Theorem C12_own_time_interior : forall td b0 v0 rest, dom td -> td_bpms td = (b0, v0) :: rest -> b0 == 0 ->
   forall P R t q tag, events td = P ++ R ->
   s_warp (St td v0 P) = false -> is_pause_tag (s_tag (St td v0 P)) = false ->
@@ -140,6 +140,20 @@ Theorem C12_own_time_interior : forall td b0 v0 rest, dom td -> td_bpms td = (b0
     <= (1 # 96) * (60 / s_bpm (St td v0 P)).
 Proof. exact own_time_interior. Qed.
 Print Assumptions C12_own_time_interior.
+
+(* ... and wherever the answer falls - also ON an event beat, the selected state's own (rounded down) or the next events'
+   (rounded up) - when event beats lie on the tick grid: the difference is at most that half tick in seconds plus the lengths
+   of stops / delays among a block M of events that all sit on the answer's beat ("widened by any pause on that beat") *)
+Theorem C12_own_time_any : forall td b0 v0 rest, dom td -> td_bpms td = (b0, v0) :: rest -> b0 == 0 ->
+  forall P R t q tag, events td = P ++ R -> (forall e, In e (events td) -> exists k : Z, e_beat e == inject_Z k / 48) ->
+  s_warp (St td v0 P) = false -> is_pause_tag (s_tag (St td v0 P)) = false ->
+  s_time (St td v0 P) < t -> (forall x, In x (tl (run_states (St td v0 P) R)) -> t < s_time x) ->
+  (0 < fst (beat_at_raw (sts td v0) (init_state td v0) t q) \/ (2 <= tag)%Z) ->
+  exists M, (forall e, In e M -> In e (events td) /\ e_beat e == fst (beat_at_raw (sts td v0) (init_state td v0) t q)) /\
+    Qabs (time_at (sts td v0) (init_state td v0) (fst (beat_at_raw (sts td v0) (init_state td v0) t q)) tag - t)
+      <= (1 # 96) * (60 / s_bpm (St td v0 P)) + end_sum M.
+Proof. exact own_time_any_aligned. Qed.
+Print Assumptions C12_own_time_any.
 
 (* every answer is tick-aligned: any time, any tag, on timing data whose event beats lie on the tick grid *)
 Theorem C12_tick_aligned_td : forall td v0, (forall e, In e (events td) -> exists k : Z, e_beat e == inject_Z k / 48) ->
@@ -262,4 +276,17 @@ Proof. vm_compute. reflexivity. Qed.
 Definition td_wz : tdata := {| td_bpms := [(0, 120)]; td_stops := [(10, 0); (12, 0)]; td_delays := []; td_warps := [(8, 4)]; td_offset := 0 |}.
 Example C12_warp_zero_pause_example :
   Qeq_bool (beat_at_of td_wz 4 tWARP) 8 && Qeq_bool (beat_at_of td_wz 4 tSTOP) 12 && Qeq_bool (beat_at_of td_wz (9 # 2) tSTOP) 13 = true.
+Proof. vm_compute. reflexivity. Qed.
+
+(* a concrete instance of the widened bound: BPM 120 and a delay of 0.5 s on beat 2 (reached at 1.0 s); asked 0.997 s the answer
+   rounds up to beat 2, whose own time under the default tag is 1.5 s (the delay has elapsed): 0.503 s away, within
+   (1/96) x 0.5 s + 0.5 s and not within the half tick alone *)
+Definition td_d : tdata := {| td_bpms := [(0, 120)]; td_stops := []; td_delays := [(2, 1 # 2)]; td_warps := []; td_offset := 0 |}.
+Example C12_own_time_widened_example :
+  match states td_d with
+  | EOk l => let d := hd {| s_beat := 0; s_val := 0; s_tag := 0; s_time := 0; s_bpm := 1; s_warp := false |} l in
+             let a := fst (beat_at_raw l d (997 # 1000) tSTOP) in
+             let diff := Qabs (time_at l d a tSTOP - (997 # 1000)) in
+             Qeq_bool a 2 && Qle_bool diff ((1 # 96) * (60 / 120) + (1 # 2)) && negb (Qle_bool diff ((1 # 96) * (60 / 120)))
+  | _ => false end = true.
 Proof. vm_compute. reflexivity. Qed.
